@@ -630,11 +630,44 @@ def typeddict_in_union(a, inside: bool = False) -> bool:
     return False
 
 
+def classify_exc(exc: BaseException) -> str:
+    """A coerced member that cannot be hashed into the payload set / dict (Decimal('sNaN')) is its own class."""
+    import traceback
+    tb = traceback.extract_tb(exc.__traceback__)
+    frames = [f for f in tb if "/koda_validate/" in f.filename]
+    line = (frames[-1].line or "") if frames else ""
+    if isinstance(exc, TypeError) and "Cannot hash a signaling NaN" in str(exc) and (
+            "return_set.add" in line or "return_dict[" in line or "success_dict[" in line):
+        return "unhashable-coerced-payload"
+    return type(exc).__name__
+
+
+WITNESSES = {
+    # Union[Set[Decimal], Set[str]] on {"sNaN"}: a Set[str], yet the Decimal variant raises before the str variant is tried
+    "union_set_decimal_snan": (("AUnion", [("ASet", ("AScalar", ("KDecimal",))), ("ASet", ("AScalar", ("KStr",)))]),
+                               ("VSet", [S("sNaN")]), False),
+}
+
+
+def probe_known(k: dict) -> bool:
+    w = WITNESSES.get(k.get("witness"))
+    if w is None:
+        return False
+    a, x, sig = w
+    c = TCase(list(G.STD_CLASSES), a, x, sig, "witness")
+    try:
+        observe(c, random.Random(0))
+    except Exception:  # noqa
+        return False
+    r = oracle(c)
+    return bool(r) and r["signature"] == k["signature"]
+
+
 def oracle(c: TCase) -> Optional[dict]:
     if c.exc is not None:
         if uses_annotated(c.a):
             return None
-        return {"signature": f"C07:raised:{type(c.exc).__name__}", "what": f"the derived validator raised {c.exc!r}"}
+        return {"signature": f"C07:raised:{classify_exc(c.exc)}", "what": f"the derived validator raised {c.exc!r}"}
     b = c.b
     if type(c.raw) is Valid:
         if not uses_annotated(c.a) and not is_value(c.a, c.raw.val, b):
@@ -775,8 +808,27 @@ def gen_lookalike_case(rng: random.Random, sig: bool) -> Optional[TCase]:
     return TCase(g.classes, a, x2, sig, "lookalike")
 
 
-def gen_cases(rng: random.Random, n: int) -> List[TCase]:
+def literal_cases(rng: random.Random) -> List[TCase]:
+    """Literal annotations whose members are equal across kinds (0 / False, 1 / True) or alike ("a" / b"a"),
+    in every written order, against every such value - bare and nested."""
+    import itertools
     out: List[TCase] = []
+    groups = [[I(0), G.FALSE], [I(1), G.TRUE], [I(1), G.TRUE, I(2)], [I(0), G.TRUE], [S("a"), G.B(b"a")], [I(0), G.FALSE, G.NONE],
+              [S(""), G.B(b""), G.NONE], [I(1), I(2)], [G.TRUE, G.FALSE]]
+    values = [I(0), I(1), I(2), G.TRUE, G.FALSE, G.NONE, S("a"), S(""), G.B(b"a"), G.B(b""), G.F1, G.F0]
+    g = Gen(rng)
+    for grp in groups:
+        for perm in itertools.permutations(grp):
+            lit = ("ALiteral", B.sorted_terms(list(perm)) if len({v[0] for v in perm}) == 1 else list(perm))
+            for a, wrap in ((lit, lambda v: v), (("AList", lit), lambda v: ("VList", [v])),
+                            (("AUnion", [lit, ("AScalar", ("KStr",))]), lambda v: v)):
+                for x in values:
+                    out.append(TCase(g.classes, a, wrap(x), rng.random() < 0.5, "literal"))
+    return out
+
+
+def gen_cases(rng: random.Random, n: int) -> List[TCase]:
+    out: List[TCase] = literal_cases(rng)
     while len(out) < n:
         g = Gen(rng)
         a = g.ann(rng.choice([0, 1, 1, 2, 2, 3]))
@@ -937,3 +989,7 @@ def replay(path: str) -> int:
         return 1
     print("property holds on this input")
     return 0
+
+
+from ..facts import attach as _attach, typechecks as _typechecks  # noqa: E402
+_attach(globals(), _typechecks.obligation("C07"))
